@@ -634,12 +634,12 @@ def run(ctx: Ctx) -> None:
         fut = ex.submit(run_tlc, "UrlDispatchMC", write_cfg(2, rich, False), workers=16,
                         timeout=ctx.pick(900, 3000), deadlock=False)
         try:
-            chosen = driver_model(ctx, drv, g, judge, ctx.pick(330, None), "tlc-model")
+            chosen = driver_model(ctx, drv, g, judge, ctx.pick(250, None), "tlc-model")
             sub = list(chosen)
             ctx.rng.shuffle(sub)
-            driver_spellings(ctx, drv, g, judge, sub[:ctx.pick(150, 3000)], ctx.pick(40, 60))
+            driver_spellings(ctx, drv, g, judge, sub[:ctx.pick(100, 3000)], ctx.pick(40, 60))
             driver_urlfor(ctx, drv, g, judge)
-            driver_redirect(ctx, drv, g, judge, sub[:ctx.pick(12, 300)])
+            driver_redirect(ctx, drv, g, judge, sub[:ctx.pick(8, 300)])
             judge.flush()
         finally:
             drv.close()
@@ -715,7 +715,7 @@ def selftest(ctx: Ctx) -> int:
         print("  expected exactly the two off-site Locations to be flagged:", vs[5].info)
         ok = False
     drv.close()
-    for mutant, inv in (("shortfirst", {"InvLongestKeyFirst", "InvFixedBeatsVariable", "InvDeterministic"}),
+    for mutant, inv in (("shortfirst", {"InvLongestKeyFirst", "InvFixedBeatsVariable", "InvDeterministic", "InvRegistrationOrder"}),
                         ("lastallowed", {"InvNotAllowedIsComplete", "InvDeterministic"})):
         res = run_tlc("UrlDispatchMC", write_cfg(2, False, False, mutant), workers=16, timeout=600, deadlock=False)
         print(f"mutant {mutant}: TLC -> {res.violated} after {res.distinct} states")
